@@ -52,12 +52,24 @@ struct PeekC : public ChartToC {
 	static std::list<ChartToC*>& allOf(ChartToC* m) { return m->*(&PeekC::_allMachines); }
 	static std::list<ChartToC*>& nestedOf(ChartToC* m) { return m->*(&PeekC::_nestedMachines); }
 };
+size_t docPos(const DOMElement* e);
+std::string printed(const void* p);
 struct PeekP : public ChartToPromela {
-	static std::map<DOMElement*, ChartToPromela*>* allOf(ChartToPromela* m) { return m->*(&PeekP::_machinesAll); }
-	static std::map<DOMElement*, ChartToPromela*>& nestedOf(ChartToPromela* m) { return m->*(&PeekP::_machinesNested); }
-	static std::string invokerIdOf(ChartToPromela* m) { return m->*(&PeekP::_invokerid); }
+	// iteration order of the machine map (whatever its key order is in the tree at hand): key address, owner
+	// document, position in it, prefix, the DOMDocument of the machine's own generator object (what its md5 is taken from)
+	static bool dumpAll(ChartToPromela* p, std::ostringstream& o) {
+		auto all = p->*(&PeekP::_machinesAll);
+		if (!all) return false;
+		o << " PMAP=";
+		const char* sep = "";
+		for (auto& kv : *all) {
+			o << sep << printed(kv.first) << "/" << printed(kv.first->getOwnerDocument()) << "/" << docPos(kv.first)
+			  << "/" << PeekC::prefixOf(kv.second) << "/" << printed(PeekC::docOf(kv.second));
+			sep = ",";
+		}
+		return true;
+	}
 };
-
 struct PeekV : public ChartToVHDL {
 	static Trie& trieOf(ChartToVHDL* m) { return m->*(&PeekV::_eventTrie); }
 	static std::list<TrieNode*>& namesOf(ChartToVHDL* m) { return m->*(&PeekV::_eventNames); }
@@ -126,17 +138,7 @@ std::string cmd_dettr(const std::vector<std::string>& a) {
 			for (auto m : PeekC::allOf(c)) { o << sep << PeekC::prefixOf(m); sep = ","; }
 		}
 		ChartToPromela* p = dynamic_cast<ChartToPromela*>(t.getImpl().get());
-		if (p && PeekP::allOf(p)) {
-			// iteration order of the pointer-keyed map: key address, owner document, position in it, prefix, the
-			// DOMDocument of the machine's own generator object (what its md5 is taken from)
-			o << " PMAP=";
-			const char* sep = "";
-			for (auto& kv : *PeekP::allOf(p)) {
-				o << sep << printed(kv.first) << "/" << printed(kv.first->getOwnerDocument()) << "/" << docPos(kv.first)
-				  << "/" << PeekC::prefixOf(kv.second) << "/" << printed(PeekC::docOf(kv.second));
-				sep = ",";
-			}
-		}
+		if (p) PeekP::dumpAll(p, o);
 		ChartToVHDL* vh = dynamic_cast<ChartToVHDL*>(t.getImpl().get());
 		if (vh) {
 			o << " TRIE=";
